@@ -6,7 +6,7 @@ import numpy as np
 from .values import to_json
 from .build import build
 
-PROBE = ['a', 'b', 'c', 'd', 'p', 'zz']
+PROBE = ['a', 'b', 'c', 'd', 'pp', 'zz']
 RUNAWAY = 2000
 
 
